@@ -541,7 +541,7 @@ func (e *Engine) spawn(c *Config, fn *ssa.Function, args, bindings []Value) *Gor
 	if g == nil {
 		g = &Gor{idx: len(e.gors), name: name, rest: map[string]*Config{}, doneG: TS.False, fnName: fn.String()}
 		for _, p := range e.daemonPats {
-			if strings.Contains(g.fnName, p) {
+			if daemonMatch(g.fnName, p) {
 				g.daemon = true
 			}
 		}
@@ -931,7 +931,7 @@ func (e *Engine) intrinsic(cc *CallCtx, name string) bool {
 		p := constName(a[0])
 		e.daemonPats = append(e.daemonPats, p)
 		for _, g := range e.gors {
-			if strings.Contains(g.fnName, p) {
+			if daemonMatch(g.fnName, p) {
 				g.daemon = true
 			}
 		}
@@ -976,3 +976,12 @@ func (e *Engine) intrinsic(cc *CallCtx, name string) bool {
 }
 
 var extraIntrinsics = map[string]func(cc *CallCtx) bool{}
+
+// daemonMatch: "name*" matches goroutines whose entry function contains name; otherwise the entry
+// function's full name must end with the pattern.
+func daemonMatch(fnName, p string) bool {
+	if strings.HasSuffix(p, "*") {
+		return strings.Contains(fnName, strings.TrimSuffix(p, "*"))
+	}
+	return strings.HasSuffix(fnName, p)
+}
